@@ -413,6 +413,58 @@ def independent_fchk(text):
     return out, (f["Number of alpha electrons"], f["Number of beta electrons"]), ob, xyz
 
 
+def independent_mwfn(text):
+    """Multiwfn .mwfn file: plain '$Section' arrays; shell types and function order as in a formatted checkpoint file (no SP shells).
+    -> [(occupation, energy, values)] per orbital."""
+    from iodata.basis import MolecularBasis, Shell
+    lines = text.splitlines()
+
+    def scalar(key, cast=float):
+        for ln in lines:
+            if ln.startswith(key + "="):
+                return cast(ln.split("=", 1)[1].split()[0])
+        raise KeyError(key)
+
+    def section(tag, n, cast):
+        i = next(k for k, ln in enumerate(lines) if ln.strip() == tag) + 1
+        vals = []
+        while len(vals) < n:
+            vals += lines[i].split()
+            i += 1
+        return [cast(v) for v in vals[:n]]
+
+    ncen, nshell, nprimshell, nbasis = (scalar(k, lambda x: int(float(x))) for k in ("Ncenter", "Nshell", "Nprimshell", "Nbasis"))
+    i0 = next(k for k, ln in enumerate(lines) if ln.strip() == "$Centers") + 1
+    xyz = np.array([[float(w) for w in lines[i0 + a].split()[4:7]] for a in range(ncen)]) * ANG
+    types = section("$Shell types", nshell, int)
+    centers = section("$Shell centers", nshell, int)
+    degrees = section("$Shell contraction degrees", nshell, int)
+    expo = section("$Primitive exponents", nprimshell, float)
+    con = section("$Contraction coefficients", nprimshell, float)
+    shells, conv, off = [], {(0, "c"): ["1"], (1, "c"): ["x", "y", "z"]}, 0
+    for t, c, d in zip(types, centers, degrees):
+        l, kind = abs(t), ("p" if t < -1 else "c")
+        shells.append(Shell(c - 1, [l], [kind], expo[off:off + d], np.array([con[off:off + d]]).T))
+        conv[(l, kind)] = _gauss_pure(l) if kind == "p" else _gauss_cart(l)
+        off += d
+    ob = MolecularBasis(shells, conv, "L2")
+    B = basis_values(ob, xyz, PROBE)
+    out = []
+    idx = [k for k, ln in enumerate(lines) if ln.startswith("Index=")]
+    for k in idx:
+        blk = lines[k:k + 8]
+        typ = int(blk[1].split("=")[1])
+        en = float(blk[2].split("=")[1])
+        occ = float(blk[3].split("=")[1])
+        j = next(q for q in range(k, len(lines)) if lines[q].strip() == "$Coeff") + 1
+        vals = []
+        while len(vals) < nbasis:
+            vals += lines[j].split()
+            j += 1
+        out.append((occ, en, np.array([float(v) for v in vals[:nbasis]]) @ B, typ))
+    return out
+
+
 def independent_check_fchk(src, text):
     """Every source orbital is in the file; with aufbau occupations implied by the electron counts."""
     try:
@@ -540,6 +592,8 @@ def foreign_load(task):
                 vals = [(float(j < na), en, v) for j, (_s, en, v) in enumerate(al)] + [(float(j < nbeta), en, v) for j, (_s, en, v) in enumerate(be)]
             else:
                 vals = [(float(j < na) + float(j < nbeta), en, v) for j, (_s, en, v) in enumerate(al)]
+        elif fmt == "mwfn":
+            vals = [(o, e, v) for o, e, v, _t in independent_mwfn(text)]
         else:
             vals = independent_wfn(text) if fmt == "wfn" else independent_wfx(text)
         with warnings.catch_warnings():
@@ -682,7 +736,7 @@ def check(run: Run):
     events = pmap(run_config, tasks, chunksize=2)
     from ..corpus import corpus
     # (h2o_error.wfx is a deliberately damaged file of the test suite)
-    foreign = [(p, f) for p, f, _ in corpus() if f in ("wfn", "wfx", "fchk") and "error" not in os.path.basename(p)
+    foreign = [(p, f) for p, f, _ in corpus() if f in ("wfn", "wfx", "fchk", "mwfn") and "error" not in os.path.basename(p)
                and (run.thorough() or os.path.getsize(p) < 400000)]
     fevents = pmap(foreign_load, foreign, chunksize=1)
     events = events + fevents
@@ -713,7 +767,7 @@ def check(run: Run):
         "compared only when an occupation exceeds 1 or the loaded kind equals the source kind",
         "independent readers exist for WFN, WFX (primitive expansions) and FCHK (Gaussian's shell types and function order, aufbau "
         "occupations from the electron counts); Molden / Molekel are projected through load_one only (their independent writers are in C05)",
-        "corpus WFN / WFX / FCHK files written by other programs are loaded and compared with their independent reading",
+        "corpus WFN / WFX / FCHK / MWFN files written by other programs are loaded and compared with their independent reading",
     ]
 
 
